@@ -136,7 +136,9 @@ def run(chk, tier, seed, replay=None):
     # (the last two match the module's dotted name but no test id: a negated
     # --test pattern must not decide which modules are looked at)
     tpool = ['alpha', '^test_a', 'eta', '', '.', '!beta', '!alpha', '!', 'TL1', '!TL2', 'zzz',
-             '!^tests', '!tests$']
+             '!^tests', '!tests$',
+             # the spelling of a test id: "method (module.Class.method)"
+             r'!_alpha\)$', r'TL1\)$', r'!TL1\.test_alpha', r'TU\.test_\w+\)$']
     lpool = ['L1', 'L', 'Unit', '!L1', '!Unit', '', '.', 'zzz']
     cases = []
     k = 0
